@@ -62,7 +62,7 @@ def r03_1(prog: Program, rep: Report, direction="unmarshal", rule="R03.1"):
             continue
         for p, r in P.returns(P.paths_of(prog, f)):
             # a validated result variable: follow `result = <expr>` (already substituted by the evaluator)
-            shape, leaves, conds = K.output_leaves(r)
+            shape, leaves, conds = K.output_leaves(r, [g for g, pol in p.guards() if pol])
             n += 1
             if leaves is None:
                 rep.violated(rule, c.qualname, f.loc, f"output of the composite routine is not built from converted members: {T.show(r)[:160]}", detail="shape")
